@@ -32,6 +32,7 @@ def eval_int(expr, env=None):
         raise Missing('cannot evaluate: ' + expr)
     return int(eval(e, {'__builtins__': {}}, dict(env or {})))
 
+
 def extract(repo):
     out = {}
     notes = []
@@ -221,7 +222,83 @@ def extract(repo):
             raise Missing('line.len() > N in ManifestIterator::next')
         return int(mm.group(1))
     grab('maniMinLine', min_line)
+    try:
+        sst_consts(repo, out, grab)
+    except OSError as ex:
+        notes.append('sst: not extracted (%s)' % ex)
     return out, notes
+
+SST_WIRE = {'uint64': 0, 'uint32': 0, 'int64': 0, 'int32': 0, 'sint64': 0, 'sint32': 0, 'Bool': 0, 'fixed64': 1, 'sfixed64': 1,
+        'double': 1, 'bytes': 2, 'bytes16': 2, 'bytes32': 2, 'bytes64': 2, 'string': 2, 'message': 2, 'fixed32': 5,
+        'sfixed32': 5, 'float': 5}
+
+def sst_strip_comments(src):
+    return re.sub(r'//[^\n]*', '', re.sub(r'/\*.*?\*/', '', src, flags=re.S))
+
+def sst_message_fields(src, kind, name):
+    """[(field number, wire type)] of a `#[derive(Message)]` struct or enum, in declaration order"""
+    m = re.search(r'\b%s\s+%s\b[^{]*\{(.*?)\n\}' % (kind, re.escape(name)), src, re.S)
+    if not m:
+        raise Missing(name)
+    body = sst_strip_comments(m.group(1))
+    fs = re.findall(r'#\[prototk\(\s*(\d+)\s*,\s*([A-Za-z0-9_]+)', body)
+    if not fs:
+        raise Missing(name + ' fields')
+    for _, ty in fs:
+        if ty not in SST_WIRE:
+            raise Missing('wire type of ' + ty)
+    return [(int(n), SST_WIRE[ty]) for n, ty in fs]
+
+def sst_consts(repo, out, grab):
+    lib = read(repo, 'sst/src/lib.rs')
+    blk = read(repo, 'sst/src/block.rs')
+    env = {}
+    def c(key, name, ty=r'[A-Za-z0-9_]+'):
+        def f():
+            expr = sst_strip_comments(const_int(lib, name, ty))
+            expr = expr.replace('setsum::SETSUM_BYTES', str(out.get('setsumBytes', 32))).replace('\n', ' ')
+            v = eval_int(' '.join(expr.split()), env)
+            env[name] = v
+            return v
+        grab(key, f)
+    c('sstMaxKeyLen', 'MAX_KEY_LEN')
+    c('sstMaxValueLen', 'MAX_VALUE_LEN')
+    c('sstTableFullSize', 'TABLE_FULL_SIZE')
+    c('sstBlockMetadataMaxSz', 'BLOCK_METADATA_MAX_SZ')
+    c('sstFinalBlockMaxSz', 'FINAL_BLOCK_MAX_SZ')
+    c('sstClampMinTargetBlockSize', 'CLAMP_MIN_TARGET_BLOCK_SIZE')
+    c('sstClampMaxTargetBlockSize', 'CLAMP_MAX_TARGET_BLOCK_SIZE')
+    def max_key():
+        m = re.search(r'const\s+MAX_KEY\s*:\s*&\[u8\]\s*=\s*&\[\s*(0x[0-9a-fA-F]+|\d+)(?:u8)?\s*;\s*(\d+)\s*\]', lib)
+        if not m:
+            raise Missing('MAX_KEY')
+        return [int(m.group(1), 0)] * int(m.group(2))
+    grab('sstMaxKey', max_key)
+    def default_of(src, struct, field):
+        m = re.search(r'impl Default for %s\s*\{.*?\n\}' % struct, src, re.S)
+        if not m:
+            raise Missing('Default for ' + struct)
+        f = re.search(r'\b%s\s*:\s*([^,\n]+),' % field, m.group(0))
+        if not f:
+            raise Missing(struct + '.' + field)
+        return eval_int(f.group(1).strip())
+    grab('blockDefaultBytesRestartInterval', lambda: default_of(blk, 'BlockBuilderOptions', 'bytes_restart_interval'))
+    grab('blockDefaultPairsRestartInterval', lambda: default_of(blk, 'BlockBuilderOptions', 'key_value_pairs_restart_interval'))
+    grab('sstDefaultTargetBlockSize', lambda: default_of(lib, 'SstOptions', 'target_block_size'))
+    grab('sstDefaultBloomFilterBits', lambda: default_of(lib, 'SstOptions', 'bloom_filter_bits'))
+    def footer_tags():
+        m10 = re.search(r'let\s+tag10\s*:\s*v64\s*=\s*\(\((\d+)\s*<<\s*3\)\s*\|\s*(\d+)\)', blk)
+        m11 = re.search(r'let\s+tag11\s*:\s*v64\s*=\s*\(\((\d+)\s*<<\s*3\)\s*\|\s*(\d+)\)', blk)
+        if not (m10 and m11):
+            raise Missing('block footer tags')
+        return [int(m10.group(1)), int(m10.group(2)), int(m11.group(1)), int(m11.group(2))]
+    grab('blockFooterTags', footer_tags)
+    for key, kind, name in [('keyValuePut', 'struct', 'KeyValuePut'), ('keyValueDel', 'struct', 'KeyValueDel'),
+                            ('keyValueEntry', 'enum', 'KeyValueEntry'), ('sstEntry', 'enum', 'SstEntry'),
+                            ('blockMetadata', 'struct', 'BlockMetadata'), ('finalBlock', 'struct', 'FinalBlock'),
+                            ('sstMetadata', 'struct', 'SstMetadata')]:
+        grab(key + 'Fields', lambda kind=kind, name=name: [n for n, _ in sst_message_fields(lib, kind, name)])
+        grab(key + 'Wire', lambda kind=kind, name=name: [w for _, w in sst_message_fields(lib, kind, name)])
 
 def lean_str(x):
     return '"' + x.replace('\\', '\\\\').replace('"', '\\"') + '"'
